@@ -19,7 +19,10 @@
        enclosing References, nothing else (C03_localisation), and the byte range published for it
        (C03_published_range);
      - errors() cannot fail when the collected ranges lie within the token vector (C03_ranges_inside).
-   NOT proved: C03_full_statement (below) - the single-fault half for whole rendered programs. *)
+     - exactly one fault => exactly one diagnostic (C03_single_fault_stmt/_program, C03_single_semantic_fault,
+       C03_statement_semantic).
+   NOT proved: C03_full_statement (below) for the declaration and missing-token faults, whose single-fault variants
+   are not defined in Coq. *)
 From Spl Require Import Spec.Typing Model.Errors Proofs.TypingProofs.
 Local Open Scope nat_scope.
 
@@ -318,6 +321,34 @@ Theorem C03_rule_main_must_not_have_parameters : forall p ds' G' main,
 Proof. exact rule_main_must_not_have_parameters. Qed.
 Print Assumptions C03_rule_main_must_not_have_parameters.
 
+(* ---- exactly one fault => exactly one diagnostic ----
+   Spec/Typing.v `fault_stmt L G s x`: s is well-typed except for exactly one violated premise of one rule at one
+   node (17 semantic message kinds + unary minus; the fault may sit at any depth: in an operand, an index, an
+   argument, a condition, a nested statement); x is the diagnostic SPL prescribes: that rule's message with the
+   range of the node the rule names, made relative to s's Reference.  Then the analysis attaches exactly x. *)
+
+Theorem C03_single_fault_stmt : forall L G s x,
+  fault_stmt L G s x -> clean_stmt s = true ->
+  exists s', an_stmt (Some L) (Some G) s = ROk s' /\ stmt_errors s' = [x].
+Proof. exact fault_stmt_sound. Qed.
+Print Assumptions C03_single_fault_stmt.
+
+(* whole trees: declarations well-formed, all bodies well-typed except one statement with exactly one fault:
+   build attaches nothing, analyze exactly one error, and errors() publishes it shifted to absolute tokens *)
+Theorem C03_single_fault_program : forall p G y,
+  tree_clean p = true -> fault_program p G y ->
+  build_res p = ROk (p, G) /\ exists p', analyze_res p G = ROk p' /\ tree_errors p' = [y].
+Proof. exact fault_program_sound. Qed.
+Print Assumptions C03_single_fault_program.
+
+(* from texts on (the lexer's output is a hypothesis): exactly one diagnostic, with the byte range of y's tokens *)
+Theorem C03_single_semantic_fault : forall p t G y,
+  prog_ok p = true -> fault_program (expected p) G y ->
+  forall toks, lex t = Some toks -> map tk toks = flatten p ++ [Eof] ->
+  forall r, byte_range toks y = ROk r -> diagnostics t = Done [r].
+Proof. exact single_semantic_fault. Qed.
+Print Assumptions C03_single_semantic_fault.
+
 (* ---- localisation and ranges ---- *)
 
 (* errors() of the tree: exactly the attached errors, each shifted by the sum n of the offsets of the
@@ -341,21 +372,47 @@ Theorem C03_ranges_inside : forall d,
 Proof. exact doc_errors_ok. Qed.
 Print Assumptions C03_ranges_inside.
 
-(* ---- the full statement (NOT proved) ----
-   (1) is C03_no_false_positive above.  (2) needs, for each of the 27 message kinds, the definition of the
-   single-fault variants of an abstract program and their culprit token range, the pipeline facts of (1) for
-   trees that are well-typed up to the one fault, and C04's range theorem to turn the node range into the
-   culprit's tokens; the per-rule theorems and C03_localisation are its node-level ingredients.  The check
-   validates (2) on generated programs (tools/splfaults.py gives variants and culprit spans). *)
-Definition C03_full_statement : Prop :=
+(* ---- the full statement ----
+   The statement of the property for a given notion of "single-fault variant": `single_fault p m (i, j)` = the abstract
+   program p is valid SPL except for one added violation of the rule whose message is m, and the offending construct
+   is the tokens i .. j-1 of `flatten p`.  (1) no diagnostic for valid programs; (2) exactly the one prescribed
+   diagnostic, with the byte range of the culprit's tokens. *)
+Definition C03_statement_for (single_fault : aprog -> emsg -> nat * nat -> Prop) : Prop :=
   (forall p t G, prog_ok p = true -> layout_of p t -> well_typed (expected p) G -> diagnostics t = Done []) /\
-  (forall (single_fault : aprog -> emsg -> nat * nat -> Prop),
-     (* single_fault p m (i, j): p is a valid program except for one added violation of the rule whose message
-        is m, and the offending construct is the tokens i .. j-1 of flatten p *)
-     forall p t toks m i j first last,
-       prog_ok p = true -> lex t = Some toks -> map tk toks = flatten p ++ [Eof] -> single_fault p m (i, j) ->
-       nth_error toks i = Some first -> nth_error toks (j - 1) = Some last ->
-       diagnostics t = Done [(ts first, te last, m)]).
+  (forall p t toks m i j first last,
+     prog_ok p = true -> lex t = Some toks -> map tk toks = flatten p ++ [Eof] -> single_fault p m (i, j) ->
+     nth_error toks i = Some first -> nth_error toks (j - 1) = Some last ->
+     diagnostics t = Done [(ts first, te last, m)]).
+
+(* PROVED for the semantic faults: the single-fault variants whose fault lies in a procedure body (17 message kinds
+   + unary minus, at any depth), `fault_program` being their definition; the culprit is the token range of the
+   prescribed diagnostic (the node the violated rule names) *)
+Definition semantic_fault (p : aprog) (m : emsg) (r : nat * nat) : Prop :=
+  exists G y, fault_program (expected p) G y /\ m = e_m y /\ r = (e_s y, e_e y) /\ e_s y < e_e y.
+
+Theorem C03_statement_semantic : C03_statement_for semantic_fault.
+Proof.
+  split; [exact no_false_positive|].
+  intros p t toks m i j first last Hok Hlex Hk [G [y [Hf [-> [[= -> ->] Hlt]]]]] Hfirst Hlast.
+  eapply single_semantic_fault; try eassumption. apply byte_range_nonempty; assumption.
+Qed.
+Print Assumptions C03_statement_semantic.
+
+(* NOT PROVED - and `declaration_or_syntax_fault` is NOT DEFINED in Coq: the single-fault variants for the 10
+   declaration rules (a faulty declaration changes the table the rest of the program is checked against; the node-level
+   facts are C03_rule_* above) and for the missing-token syntax faults exist as tools/splfaults.py only, where the check
+   validates (2) for them on generated programs.  The full statement of the property is C03_statement_for of the union: *)
+Definition C03_full_statement (declaration_or_syntax_fault : aprog -> emsg -> nat * nat -> Prop) : Prop :=
+  C03_statement_for (fun p m r => semantic_fault p m r \/ declaration_or_syntax_fault p m r).
+
+(* what remains open is exactly the second disjunct *)
+Theorem C03_full_statement_reduces : forall dsf,
+  C03_statement_for dsf -> C03_full_statement dsf.
+Proof.
+  intros dsf [_ H2]. destruct C03_statement_semantic as [H1 H2s]. split; [exact H1|].
+  intros p t toks m i j first last Hok Hlex Hk [Hs | Hd]; [eapply H2s | eapply H2]; eassumption.
+Qed.
+Print Assumptions C03_full_statement_reduces.
 
 (* ---- non-vacuity ---- *)
 Open Scope N_scope.
@@ -510,6 +567,34 @@ Example C03_ex_rule_instance :
   an_stmt (Some []) (Some initialized) (SCall (x_ident 0 [] [113]) [] (mkinfo 0 4)) =
   ROk (SCall (x_ident 0 [] [113]) [] (info_append (mkinfo 0 4) (node_err (mkinfo 0 4) (UndefinedProcedure [113])))).
 Proof. apply C03_rule_undefined_procedure. split; reflexivity. Qed.
+
+(* exactly one fault: `j := x;` in main of the example program (x is an array) *)
+Definition ex_local : ltable :=
+  Eval vm_compute in match lookup ex_table s_main with Some (GProcE pe) => pe_local pe | _ => [] end.
+Definition ex_bad : stmt := Eval vm_compute in x_stmt 0 (SAsg (nm s_j) c0 (e_f (FVar (nm s_x))) c0).
+Example C03_ex_fault : fault_stmt ex_local ex_table ex_bad (node_err (mkinfo 0 4) AssignmentHasDifferentTypes).
+Proof. unfold ex_bad. eapply FS_assign_types; [ty | ty | discriminate]. Qed.
+Example C03_ex_fault_instance :
+  exists s', an_stmt (Some ex_local) (Some ex_table) ex_bad = ROk s' /\
+             stmt_errors s' = [{| e_s := 0%nat; e_e := 4%nat; e_m := ESem AssignmentHasDifferentTypes |}].
+Proof. apply C03_single_fault_stmt; [exact C03_ex_fault | vm_compute; reflexivity]. Qed.
+(* a fault at depth: `x[j + (1 < 2)] := 0;` - the operator rule inside an index inside the left-hand side *)
+Definition ex_deep : stmt :=
+  Eval vm_compute in
+    x_stmt 0 (SAsg (AIndex (nm s_x) c0 (CAdd (ABin (AMul (MFac (FVar (nm s_j)))) c0 APlus
+                                               (MFac (FPar c0 (CBin (AMul (MFac (lit 1))) c0 CLt (AMul (MFac (lit 2)))) c0)))) c0)
+                   c0 (e_f (lit 0)) c0).
+Example C03_ex_fault_deep :
+  fault_stmt ex_local ex_table ex_deep (err_shift 2 (node_err (mkinfo 0 7) OperatorDifferentTypes)).
+Proof.
+  unfold ex_deep. eapply FS_assign_lhs; [|right; reflexivity|ty].
+  eapply (FV_in_index _ _ _ _ _ _ _ (Some DInt)); [ty | | right; reflexivity].
+  eapply (FE_different _ _ OAdd); [ty | ty | left; split; [reflexivity | discriminate]].
+Qed.
+Example C03_ex_fault_deep_instance :
+  exists s', an_stmt (Some ex_local) (Some ex_table) ex_deep = ROk s' /\
+             stmt_errors s' = [{| e_s := 2%nat; e_e := 9%nat; e_m := ESem OperatorDifferentTypes |}].
+Proof. apply (C03_single_fault_stmt _ _ _ _ C03_ex_fault_deep). vm_compute. reflexivity. Qed.
 
 (* localisation on a concrete tree: an error attached to the index expression of an assignment inside a
    procedure is published shifted by declaration offset + statement offset + index offset *)
